@@ -390,4 +390,234 @@ def nodupB : List String → Bool
 
 def Call.wfB (c : Call) : Bool := nodupB c.keys && !c.keys.contains ""
 
+/-! ## The two supplements that run the standard routine first: their own rules
+
+`_Compress.infer_output_types` and `_Loop.infer_output_types` (opset `ai.onnx` v17 text, shared by
+the later modules). Both are applied *after* the standard routine accepted the node
+(`constructSupplemented`). Tied to the code by correspondence on every generated Compress / Loop call
+(tie H): the real output Var types are compared with `compressOwn` / `loopOwn` applied to the observed
+standard answer. -/
+
+/-- `x` says at least what `y` says about one dimension (`y` unknown, or the same) -/
+def dimLe (x y : Dim) : Bool := y == Dim.unk || x == y
+
+/-- `x` refines `y`: same constructor and element type, and wherever `y` knows the rank / a
+    dimension `x` agrees. (The relation the model-free oracle demands between a supplemented
+    operator's output types and ONNX's: the supplement may say more, never less, nothing else.) -/
+def tyLe : Ty → Ty → Bool
+  | .tensor e sh, .tensor e' sh' =>
+    e == e' && (match sh', sh with
+      | none, _ => true
+      | some _, none => false
+      | some ds', some ds => ds.length == ds'.length && (List.zip ds ds').all (fun p => dimLe p.1 p.2))
+  | .seq t, .seq t' => tyLe t t'
+  | .opt t, .opt t' => tyLe t t'
+  | _, _ => false
+
+def isConstDim : Dim → Bool
+  | .const _ => true
+  | _ => false
+
+/-- `shape[axis] = None` for an in-range non-negative index -/
+def setUnkAt : List Dim → Nat → List Dim
+  | [], _ => []
+  | _ :: ds, 0 => Dim.unk :: ds
+  | d :: ds, i + 1 => d :: setUnkAt ds i
+
+/-- `cond.shape and len(cond.shape) != 1`: the shape is known, not `()`, and not of rank 1 -/
+def condRankBad : Option (List Dim) → Bool
+  | some (_ :: _ :: _) => true
+  | _ => false
+
+/-- `_Compress.infer_output_types` after the standard routine accepted and both inputs are typed:
+    `if inp.shape is None and axis is not None: unknown shape`; condition must be boolean (elem 9)
+    and, if its shape is known and not `()`, of rank 1; with an axis the input shape with that axis
+    unknown (Python negative indexing), without one a vector. -/
+def compressOwn (inp cond : Ty) (axis : Option Int) : Except Err Ty :=
+  match inp, cond with
+  | .tensor e ish, .tensor ce csh =>
+    if ish.isNone && axis.isSome then .ok (.tensor e none)
+    else if ce != 9 then .error .inference
+    else if condRankBad csh then .error .inference
+    else match axis, ish with
+      | none, _ => .ok (.tensor e (some [Dim.unk]))
+      | some _, none => .ok (.tensor e none)
+      | some a, some ds =>
+        let n : Int := ds.length
+        if -n ≤ a ∧ a < n then
+          .ok (.tensor e (some (setUnkAt ds (if a < 0 then a + n else a).toNat)))
+        else .error .inference
+  | _, _ => .error .inference
+
+/-- the rule before fix `2f0b661` (`if not inp.shape: unknown shape`, which also swallowed the
+    no-axis case where ONNX infers a vector) -/
+def compressOwnOld (inp cond : Ty) (axis : Option Int) : Except Err Ty :=
+  match inp with
+  | .tensor e none => .ok (.tensor e none)
+  | _ => compressOwn inp cond axis
+
+/-- `refines(res, arg)` of `_Loop.infer_output_types` -/
+def loopRefines : Option Ty → Option Ty → Bool
+  | some (.tensor re rsh), some (.tensor ae ash) =>
+    if re != ae then false
+    else match ash, rsh with
+      | none, _ => true
+      | some _, none => false
+      | some as, some rs =>
+        rs.length == as.length && (List.zip as rs).all (fun p => p.1 == p.2 || !isConstDim p.1)
+  | some r, some a => r == a
+  | _, _ => false
+
+/-- `common(res, arg)` of `_Loop.infer_output_types` -/
+def loopCommon : Ty → Ty → Ty
+  | .tensor _ rsh, .tensor ae ash =>
+    match rsh, ash with
+    | some rs, some as => .tensor ae (some ((List.zip as rs).map (fun p => if p.1 = p.2 then p.1 else Dim.unk)))
+    | _, _ => .tensor ae none
+  | _, a => a
+
+/-- `for name, res, arg in zip(carried_names, carried_types, argument_types): output_types[name] = common(res, arg)`
+    (by position: the carried outputs are the first output keys) -/
+def loopOverlay : List (Option Ty × Option Ty) → List (String × Option Ty) → List (String × Option Ty)
+  | (some r, some a) :: ps, (k, _) :: std => (k, some (loopCommon r a)) :: loopOverlay ps std
+  | _ :: ps, e :: std => e :: loopOverlay ps std
+  | [], std => std
+  | _, [] => []
+
+/-- `_Loop.infer_output_types` on top of the standard answer `std` (one entry per output key, in
+    order): `results` = types of the body's results after the condition, `args` = declared types of
+    the body's arguments after (iteration, condition) -/
+def loopOwn (results args : List (Option Ty)) (std : List (String × Option Ty)) :
+    List (String × Option Ty) :=
+  let ps := List.zip results args
+  if ps.all (fun p => loopRefines p.1 p.2) then loopOverlay ps std else std
+
+/-- the rule before fix `bd04552`: the body's result types are reported whatever the arguments were
+    declared with -/
+def loopOwnOld (results : List (Option Ty)) (std : List (String × Option Ty)) : List (String × Option Ty) :=
+  loopOverlay (results.map (fun r => (r, r))) std
+
+/-! ## `Type._to_onnx` / `Type._from_onnx` (with `Shape` / `Natural` in between)
+
+What a TypeProto can say about a tensor: an element type, and *optionally* a shape whose dims each
+carry a value, a parameter name, or nothing. Rank 0 (`shape` present, no dims) and unknown rank
+(`shape` absent) are different protos, and so are a dimension of size 0 and an unknown dimension -
+the places where a truthiness test (`if shape:`, `if dim_value:`) goes wrong. -/
+
+inductive PDim
+  | value (n : Int)
+  | param (s : String)
+  | unset
+  deriving DecidableEq, Repr, Inhabited
+
+inductive PTy
+  | tensor (elem : Nat) (shape : Option (List PDim))
+  | seq (t : PTy)
+  | opt (t : PTy)
+  deriving DecidableEq, Repr, Inhabited
+
+/-- `make_tensor_type_proto` over `Tensor.shape` (= `Shape.to_simple`: an unknown with an empty label
+    is `None`) -/
+def toProtoDim : Dim → PDim
+  | .const n => .value n
+  | .sym s => if s = "" then .unset else .param s
+  | .unk => .unset
+
+def toProto : Ty → PTy
+  | .tensor e sh => .tensor e (sh.map (List.map toProtoDim))
+  | .seq t => .seq (toProto t)
+  | .opt t => .opt (toProto t)
+
+/-- `Natural.simple_from_onnx` then `Natural.from_simple(...).to_simple()` -/
+def fromProtoDim : PDim → Dim
+  | .value n => .const n
+  | .param s => if s = "" then .unk else .sym s
+  | .unset => .unk
+
+/-- `Type._from_onnx`: `Shape.from_onnx(shape).to_simple() if HasField("shape") else None` -/
+def fromProto : PTy → Ty
+  | .tensor e sh => .tensor e (sh.map (List.map fromProtoDim))
+  | .seq t => .seq (fromProto t)
+  | .opt t => .opt (fromProto t)
+
+/-- a symbolic dimension with an empty name is an unknown dimension -/
+def normDim : Dim → Dim
+  | .sym s => if s = "" then .unk else .sym s
+  | d => d
+
+def normTy : Ty → Ty
+  | .tensor e sh => .tensor e (sh.map (List.map normDim))
+  | .seq t => .seq (normTy t)
+  | .opt t => .opt (normTy t)
+
+/-- output by output: the same key, and the supplemented type refines the standard one (an output the
+    standard routine left untyped may get any type; a typed one may not lose its type) -/
+def optLe : Option Ty → Option Ty → Bool
+  | _, none => true
+  | none, some _ => false
+  | some t, some t' => tyLe t t'
+
+def refinesAll : List (String × Option Ty) → List (String × Option Ty) → Bool
+  | [], [] => true
+  | (k, t) :: r, (k', t') :: std => k == k' && optLe t t' && refinesAll r std
+  | _, _ => false
+
+/-! ## The constructors of the operators with a body: how the body's formal arguments are typed
+
+`loop(...)`, `scan(...)`, `sequence_map(...)`, `if_(...)` (module text of `ai.onnx` v17, repeated in
+the later modules) call `subgraph(types, body)` with a list of types computed from the operands
+*before* the node exists; `out_variadic` is the number of results the body returned. Tied to the
+code by correspondence on every generated Loop / Scan / SequenceMap / If call: the model's list is
+compared with the types of `body.requested_arguments` of the real node. -/
+
+/-- Python `xs[:i]` -/
+def pyTake {α} (xs : List α) (i : Int) : List α :=
+  if i < 0 then xs.take (xs.length - (-i).toNat) else xs.take i.toNat
+
+/-- Python `xs[i:]` -/
+def pyDrop {α} (xs : List α) (i : Int) : List α :=
+  if i < 0 then xs.drop (xs.length - (-i).toNat) else xs.drop i.toNat
+
+/-- `loop`: `[Tensor(int64, (1,)), Tensor(bool, (1,))] + [var.unwrap_type() for var in v_initial]` -/
+def loopFormals (vInitial : List Ty) : List Ty :=
+  [.tensor 7 (some [.const 1]), .tensor 9 (some [.const 1])] ++ vInitial
+
+/-- what the ONNX specification gives the body of a Loop: a scalar iteration number and condition -/
+def loopFormalsSpec (vInitial : List Ty) : List Ty :=
+  [.tensor 7 (some []), .tensor 9 (some [])] ++ vInitial
+
+/-- `Tensor(t.dtype, (lambda x: x[1:] if x is not None else None)(t.shape))`; `unwrap_tensor` raises
+    for a non-tensor (`none`) -/
+def scanSliceFormal : Ty → Option Ty
+  | .tensor e sh => some (.tensor e (sh.map (fun ds => ds.drop 1)))
+  | _ => none
+
+def stateFormal : Ty → Option Ty
+  | .tensor e sh => some (.tensor e sh)
+  | _ => none
+
+def allSome {α} : List (Option α) → Option (List α)
+  | [] => some []
+  | none :: _ => none
+  | some x :: xs => (allSome xs).map (x :: ·)
+
+/-- `scan`: the first `len - num_scan_inputs` operands (Python slice semantics) unchanged, the rest
+    with their first axis dropped - whatever `scan_input_axes` says -/
+def scanFormals (inputs : List Ty) (numScan : Int) : Option (List Ty) :=
+  let k : Int := (inputs.length : Int) - numScan
+  allSome ((pyTake inputs k).map stateFormal ++ (pyDrop inputs k).map scanSliceFormal)
+
+/-- the slice ONNX specifies for a scan input scanned along `axis` (normalised, in range): that axis removed -/
+def scanSliceSpec (t : Ty) (axis : Nat) : Option Ty :=
+  match t with
+  | .tensor e sh => some (.tensor e (sh.map (fun ds => ds.eraseIdx axis)))
+  | _ => none
+
+/-- `sequence_map`: the element type of the sequence operand (`.elem_type` of a non-sequence raises),
+    additional operands: element type if a sequence, else the type itself -/
+def seqMapFormals (inputSeq : Ty) (additional : List Ty) : Option (List Ty) :=
+  match inputSeq with
+  | .seq t => some (t :: additional.map (fun a => match a with | .seq t' => t' | a' => a'))
+  | _ => none
+
 end Sing
